@@ -56,7 +56,7 @@
 //@ ob pfc_locate entry=h_locate tier=B props=C01,C03,C07,C12,C14 kind=representation unwindset=mk_dict.0:40 timeout=900 replay=pfc grid=pfc
 //@ ob pfc_rank entry=h_rank tier=B props=C03,C14,C15 kind=representation unwindset=mk_dict.0:40 timeout=900 replay=pfc grid=pfc
 //@ ob pfc_absent entry=h_absent tier=B props=C02,C07,C14 kind=representation unwindset=mk_dict.0:40 timeout=900 replay=pfc grid=pfc
-//@ ob pfc_prefix entry=h_prefix tier=B props=C04,C07,C13,C14 kind=representation unwindset=mk_dict.0:40 timeout=900 ttimeout=3600 replay=pfc grid=pfc quickgrid=1x2b2+2x1b2+3x2b2+3x2b3 gridskip=5x3b5+6x2b3+6x2b6+5x2b3
+//@ ob pfc_prefix entry=h_prefix tier=B props=C04,C07,C13,C14 kind=representation unwindset=mk_dict.0:40 timeout=900 ttimeout=3600 replay=pfc grid=pfc quickgrid=1x2b2+2x1b2+3x2b2+3x2b3 gridskip=5x3b5+6x2b3+6x2b6+5x2b3+5x2b2+5x2b5+6x2b2
 //@ ob pfc_extractPrefix entry=h_extractPrefix tier=B props=C04,C13,C07 kind=representation unwindset=mk_dict.0:40 timeout=900 ttimeout=3600 replay=pfc grid=pfc quickgrid=1x2b2+2x1b2+3x2b2+3x2b3 gridskip=4x3b4+5x3b5+5x2b5+6x2b6+6x2b3+6x2b2+4x3b2+5x2b2+5x2b3
 //@ ob pfc_table entry=h_table tier=B props=C13,C07 kind=representation unwindset=mk_dict.0:40 timeout=900 replay=pfc grid=pfc
 #include "vec.h"
